@@ -467,7 +467,7 @@ func runC11(planAny any, cfg simrt.Config) *simkit.Outcome {
 				if !w.pd.onNode("compact", func() {
 					ensure()
 					if err := w.pd.cycle(); err != nil {
-						simrt.Event("CYCLE-ERROR %v", err)
+						simrt.Event("CYCLE-ERROR %s", strings.ReplaceAll(err.Error(), w.pd.root, ""))
 					}
 				}) {
 					panic("compaction died without a fault")
@@ -710,7 +710,7 @@ func (w *c11world) realRun(op *C11Op, pol C11Policy, pid int64, ensure func(), o
 	case "compact":
 		side = simrt.GoOn("side-compaction", pd.sn, func() {
 			if err := pd.cycle(); err != nil {
-				simrt.Event("CYCLE-ERROR %v", err)
+				simrt.Event("CYCLE-ERROR %s", strings.ReplaceAll(err.Error(), pd.root, ""))
 			}
 		})
 		simrt.Count("probe.retention_concurrent_with_compaction", 1)
